@@ -90,6 +90,6 @@ func Harness_C03_q_inductive_step() {
 	verif.Assert(!p, "nopanic-handle")
 	verified := !p && err == nil && out != nil && out.GetByte(TagSequence) == 4 && out.GetByte(TagErrCode) == 0
 	verif.Assert(!verified, "adversary-finish-is-never-answered-as-verified")
-	verif.Assert(v.step == VerifyStepWaiting, "finish-always-returns-to-waiting")
+	verif.Assert(v.step == VerifyStepWaiting, "inv:finish-always-returns-to-waiting")
 	verif.Reach("end")
 }
